@@ -3,4 +3,5 @@ CONSTANTS PMax = 12
           NR = 6
           NE = 3
 INVARIANT SelfPerfect
+INVARIANT ContNested
 INVARIANT Export
